@@ -1,3 +1,89 @@
-From Ebml Require Import Base Tools Spec Reader.
-Example C12_ex : ebml_size 127 1 = SUnknown /\ ebml_size 127 2 = SKnown 127.
-Proof. vm_compute. split; reflexivity. Qed.
+(* C12 — truncated input yields the complete prefix, then an accurate end-of-file error.  Statements only.
+   A truncated document [tdoc] (Proofs/Partial.v) is given by the masters that are open at the cut (outermost first; each
+   with the complete sibling trees in front of it, its id, size-field width and DECLARED size — which may exceed what is
+   there), the complete trees at the innermost level, and the tail: nothing (the cut is on a tag boundary) or the first k
+   bytes of one more tag x (0 < k < cut_limit x: a master counts as complete once its header is).
+   PARTIAL: declared paths without global placeholders; the theorem is about truncated documents so described (that every
+   prefix of every valid document has this form is not proved in Coq; the correspondence run cuts generated documents at
+   every byte position and compares with an independently computed expectation). *)
+From Ebml Require Import Base Tools Spec Writer Reader Pure Encode Proofs.Tactics Proofs.ReaderIO Proofs.Refine Proofs.PureProofs Proofs.RoundTrip Proofs.Partial.
+
+(* the reader yields exactly: the items of everything complete (Starts of the open masters included; Ends of complete
+   masters lazily, as always), then
+   - on a tag boundary: the Ends of all open masters, innermost first, and None;
+   - inside a tag: the Ends of the known-size masters that are complete at that point, and the error
+     [cut_error off x k] = UnexpectedEof at the start offset of the incomplete tag, with the id iff the id bytes are complete
+     (k >= length of the id), the size iff the header is complete, and exactly the payload bytes that are there.
+   Never a corruption error. *)
+Theorem C12_truncated_run_partial : forall c td, strict c -> c_buffered c = [] -> c_emit_eof c = true -> conf_tdoc c td ->
+  p_run c (enc_tdoc td) [RAll] = out_tdoc td.
+Proof. exact truncated_run. Qed.
+
+(* ... for every buffer capacity and chunking *)
+Theorem C12_truncated_run_buffered_partial : forall c td cap0 script, calm script -> strict c -> c_buffered c = [] -> c_emit_eof c = true ->
+  conf_tdoc c td -> run_reader c cap0 script (enc_tdoc td) [RAll] = out_tdoc td.
+Proof. intros c td cap0 script Hc. rewrite buffered_refines_pure by exact Hc. apply truncated_run. Qed.
+
+(* the local statement, at any nesting depth and reader state: the input ends inside the next tag *)
+Theorem C12_truncated_tag : forall c st T stk ids ext x k, strict c -> c_buffered c = [] -> pre c st T stk ids ext -> conf c ids x ->
+  tlen x <= ext -> (0 < k < cut_limit x)%nat -> b_bytes st = firstn k (enc_tree x) ->
+  forall n, snd (p_run_all (exhausted_count (b_off st) (T ++ stk) + S n) c st) =
+            map end_out (firstn (exhausted_count (b_off st) (T ++ stk)) (T ++ stk)) ++ [OErr (cut_error (b_off st) x k)].
+Proof. exact truncated_tag. Qed.
+
+Definition C12_sp : spec :=
+  [ {| e_id := 129; e_ty := DMaster; e_path := [] |}; {| e_id := 16643; e_ty := DMaster; e_path := [PId 129] |};
+    {| e_id := 16642; e_ty := DBinary; e_path := [PId 129; PId 16643] |}; {| e_id := 16641; e_ty := DUInt; e_path := [PId 129] |} ].
+Definition C12_cfg : cfg :=
+  {| c_sp := C12_sp; c_allow_id := false; c_allow_hier := false; c_allow_over := false; c_max := Some 4000000000; c_buffered := [];
+     c_emit_eof := true |}.
+(* Root (declared 40 bytes) { UInt 5; Parent (declared 20 bytes) { Bin [7]; <cut> } } *)
+Definition C12_levels : list level :=
+  [ {| lv_f := []; lv_id := 129; lv_sl := 1; lv_size := Some 40 |};
+    {| lv_f := [RLeaf 16641 (VU 5) [5] 1%nat]; lv_id := 16643; lv_sl := 1; lv_size := Some 20 |} ].
+Definition C12_td (tl : cut_tail) : tdoc := {| td_levels := C12_levels; td_f := [RLeaf 16642 (VB [7]) [7] 1%nat]; td_tail := tl |}.
+Definition C12_next : rtree := RLeaf 16642 (VB [1; 2; 3; 4]) [1; 2; 3; 4] 1%nat.
+
+Example C12_ex_conf : strict C12_cfg /\ conf_tdoc C12_cfg (C12_td CutBoundary) /\ conf_tdoc C12_cfg (C12_td (CutTag C12_next 5)).
+Proof.
+  assert (I1 : idok 129) by (exists 1%nat, 1; repeat split; cbn; lia).
+  assert (I2 : idok 16643) by (exists 2%nat, 259; repeat split; cbn; lia).
+  assert (I3 : idok 16642) by (exists 2%nat, 258; repeat split; cbn; lia).
+  assert (I4 : idok 16641) by (exists 2%nat, 257; repeat split; cbn; lia).
+  assert (L1 : conf C12_cfg [129] (RLeaf 16641 (VU 5) [5] 1%nat)).
+  { split; [exact I4|]. split; [lia|]. split; [vm_compute; reflexivity|]. split; [repeat constructor; lia|].
+    split; [exists DUInt; split; [reflexivity|split; [discriminate|reflexivity]]|]. split; [reflexivity|vm_compute; discriminate]. }
+  assert (L2 : forall bs, wf_bytes bs -> N.of_nat (length bs) < 126 -> conf C12_cfg [129; 16643] (RLeaf 16642 (VB bs) bs 1%nat)).
+  { intros bs Hw Hl. split; [exact I3|]. split; [lia|]. split; [change (2 ^ (7 * N.of_nat 1) - 1) with 127; lia|]. split; [exact Hw|].
+    split; [exists DBinary; split; [reflexivity|split; [discriminate|reflexivity]]|]. split; [reflexivity|]. cbn. lia. }
+  assert (HL : forall inner, inner <= 20 -> conf_levels C12_cfg [] C12_levels inner).
+  { intros inner Hi. cbn [conf_levels C12_levels lv_f lv_id lv_sl lv_size].
+    split; [constructor|]. split; [exact I1|]. split; [reflexivity|]. split; [reflexivity|]. split; [split; [lia|vm_compute; reflexivity]|].
+    split; [vm_compute; discriminate|]. split.
+    { intros n Hn. injection Hn as <-. cbn [levels_ext lv_f lv_size]. unfold lv_hl. cbn [lv_id lv_sl lv_size fsl]. vm_compute. discriminate. }
+    split; [constructor; [exact L1|constructor]|]. split; [exact I2|]. split; [reflexivity|]. split; [reflexivity|].
+    split; [split; [lia|vm_compute; reflexivity]|]. split; [vm_compute; discriminate|]. split; [|exact I].
+    intros n Hn. injection Hn as <-. cbn [levels_ext]. exact Hi. }
+  split; [repeat split|]. split.
+  - split; [apply HL; vm_compute; discriminate|]. split; [|exact I].
+    constructor; [apply L2; [repeat constructor; lia|vm_compute; reflexivity]|constructor].
+  - split; [apply HL; vm_compute; discriminate|]. split.
+    + constructor; [apply L2; [repeat constructor; lia|vm_compute; reflexivity]|constructor].
+    + split; [apply L2; [repeat constructor; lia|vm_compute; reflexivity]|]. vm_compute. split; lia.
+Qed.
+
+Example C12_ex_run :
+  enc_tdoc (C12_td (CutTag C12_next 5)) = [129; 168; 65; 1; 129; 5; 65; 3; 148; 65; 2; 129; 7; 65; 2; 132; 1; 2] /\
+  p_run C12_cfg (enc_tdoc (C12_td CutBoundary)) [RAll] =
+    [OItem (TStart 129) 0; OItem (TElem 16641 (VU 5)) 2; OItem (TStart 16643) 6; OItem (TElem 16642 (VB [7])) 9;
+     OItem (TEnd 16643) 6; OItem (TEnd 129) 0; ONone] /\
+  p_run C12_cfg (enc_tdoc (C12_td (CutTag C12_next 5))) [RAll] =
+    [OItem (TStart 129) 0; OItem (TElem 16641 (VU 5)) 2; OItem (TStart 16643) 6; OItem (TElem 16642 (VB [7])) 9;
+     OErr (REof 13 (Some 16642) (Some 4) (Some [1; 2]))] /\
+  p_run C12_cfg (enc_tdoc (C12_td (CutTag C12_next 1))) [RAll] =
+    [OItem (TStart 129) 0; OItem (TElem 16641 (VU 5)) 2; OItem (TStart 16643) 6; OItem (TElem 16642 (VB [7])) 9;
+     OErr (REof 13 None None None)] /\
+  p_run C12_cfg (enc_tdoc (C12_td (CutTag C12_next 2))) [RAll] =
+    [OItem (TStart 129) 0; OItem (TElem 16641 (VU 5)) 2; OItem (TStart 16643) 6; OItem (TElem 16642 (VB [7])) 9;
+     OErr (REof 13 (Some 16642) None None)].
+Proof. vm_compute. repeat split; reflexivity. Qed.
